@@ -282,4 +282,10 @@ Busy == \/ \E c \in Callers : pc[c] \in {"A0","A1","A2","A3","A4pre","A5","A6","
 NoStrandedWaiter == \A c \in Callers : Waiting(c) /\ ~Busy => ~(free # <<>> \/ total < Max)
 
 Dump == PrintT(ToJson([hist |-> hist]))
+\* directed behaviours: with one repair switched off (MC_off<k>.cfg), every state in which a property fails prints the
+\* schedule that led there (breadth first: shortest schedules come first); the runner keeps the first few per property
+Violated == (IF ~Limit THEN {"Limit"} ELSE {}) \cup (IF ~Exclusive THEN {"Exclusive"} ELSE {})
+            \cup (IF ~Conservation THEN {"Conservation"} ELSE {}) \cup (IF ~NoStrandedWaiter THEN {"NoStrandedWaiter"} ELSE {})
+            \cup (IF w.deadHandOut THEN {"NoDeadHandOut"} ELSE {})
+DumpBad == IF Violated # {} THEN PrintT(ToJson([hist |-> hist, violates |-> Violated, max |-> Max])) /\ FALSE ELSE TRUE
 =============================================================================
